@@ -86,9 +86,10 @@ FINE = {
 TYPES = ['SimpleContract', 'Contract', 'Transport', 'ExtendedTransport', 'Storage', 'MultiCommodityContract']
 
 
-def gen_case(rnd, oracle=None, kind=None, atype=None, dst=None, straddle=False, steps=None, force=None):
+def gen_case(rnd, oracle=None, kind=None, atype=None, dst=None, straddle=False, steps=None, force=None, probes=True):
     """steps: number of grid steps (instead of the drawn one).  force: {'fine', 'opt', 'T', 'start', 'tz'} - grid and options
-    given by the caller (streams with their own way of drawing them); everything else (asset, parameters, markets) is drawn here."""
+    given by the caller (streams with their own way of drawing them); everything else (asset, parameters, markets) is drawn here.
+    probes=False: none of the probe points (wacc, varying limits, cost_store on a coarse asset: known findings F-13h/i/o) is drawn."""
     fine = rnd.choice(['h', 'h', 'h', 'h', '30min', '15min', '2h', 'd'])
     if force is not None:
         fine, dst = force['fine'], False
@@ -198,7 +199,7 @@ def gen_case(rnd, oracle=None, kind=None, atype=None, dst=None, straddle=False, 
     # points the statement covers but the equivalence theorems do not (the merged step has ONE discount factor, ONE limit):
     # optimised as well, so that what the real code does there is on record
     probe = None
-    if oracle and kind == 'freq' and rnd.random() < 0.3:
+    if probes and oracle and kind == 'freq' and rnd.random() < 0.3:
         probe = rnd.choice(['wacc', 'varying_limits', 'cost_store'])
         if probe == 'wacc':
             args['wacc'] = rnd.choice([0.5, 1.0, 3.0])
@@ -992,10 +993,21 @@ def reference_portfolio(case):
     """the SAME portfolio with the focus asset replaced by its ordinary fine version plus explicit equalities.
     Its data are float arrays made here from the case record (never the objects handed to the real portfolio), whatever the
     form in which the real code gets them."""
-    opt = case['opt']
     tg = scen.make_grid(case['grid'])
     prices = {k: np.asarray(v, dtype=float) for k, v in case['prices'].items()}
     nodes = scen.make_nodes(case['nodes'])
+    ref, info = reference_asset(case, tg, prices, nodes)
+    others = [scen.build_asset(s, nodes) for s in case['others']]
+    return Portfolio([ref] + others), tg, prices, info
+
+
+def reference_asset(case, tg, prices, nodes):
+    """the ordinary fine version of `case['focus']` (options `case['opt']` left out) whose set-up adds the equalities of the
+    options explicitly: same rate within each coarse interval, same dispatch at the same position (by the clock) of every period
+    within a duration block.  `prices` (float arrays of the reference) receives the averaged series of a coarse asset under
+    'mean_<key>'.  Returns (asset, info); used once per asset when a portfolio holds several assets with options
+    (comp/multiper.py), each with its OWN labels."""
+    opt = case['opt']
     info = {}
     spec = copy.deepcopy(case['focus'])
     dtf = np.asarray(tg.dt, dtype=float)
@@ -1065,8 +1077,7 @@ def reference_portfolio(case):
             info['classes'] = [c for c in cls if len(c) > 1]
         return add_rows(op, rows)
     patch_setup(ref, modify)
-    others = [scen.build_asset(s, nodes) for s in case['others']]
-    return Portfolio([ref] + others), tg, prices, info
+    return ref, info
 
 
 def real_portfolio(case):
